@@ -107,6 +107,7 @@ OpOK(T, op) ==
     [] op.op = "moveback" -> Has(T, "pool", op.k) /\ ~Has(T, "agents", op.k)
     [] op.op = "movegen" -> Has(T, "agents", op.k) /\ ~Has(T, "pool", op.k)
     [] op.op = "adddel" -> ~Has(T, "agents", op.k) /\ Has(T, "agents", op.k2) /\ op.k # op.k2
+    [] op.op = "add2"   -> ~Has(T, "agents", op.k) /\ ~Has(T, "agents", op.k2) /\ op.k # op.k2
     [] op.op = "gendel" -> ~Has(T, "agents", op.k) /\ Has(T, "agents", op.k2) /\ op.k # op.k2
     [] op.op = "gen2"   -> ~Has(T, "agents", op.k) /\ ~Has(T, "pool", op.k2)
     [] op.op = "addleaf" -> op.k \notin DOMAIN leaves
@@ -154,6 +155,11 @@ Struct(S, op) ==
              S1 == PutS(S, "pool", op.k, m, <<"agents", op.k>>)
              S2 == DelS(S1, "agents", op.k)
          IN PutS(S2, "agents", op.k, NewComp(op.tpl, op.x0), New)
+    \* two additions in one update, each sent through another port of the
+    \* director wired to the same store: both are carried out
+    [] op.op = "add2" ->
+         PutS(PutS(S, "agents", op.k, NewComp("T0", op.x0), New),
+              "agents", op.k2, NewComp("T0", op.x0), New)
     [] op.op = "adddel" ->
          DelS(PutS(S, "agents", op.k, NewComp("T0", op.x0), New), "agents", op.k2)
     [] op.op = "gendel" ->
@@ -270,6 +276,7 @@ Ops ==
   \cup {[op |-> "div", k |-> k, d1 |-> a, d2 |-> b] : k \in Names, a \in Names, b \in Names}
   \cup {[op |-> "divx", k |-> k, d1 |-> a, d2 |-> b, x0 |-> 7] : k \in Names, a \in Names, b \in Names}
   \cup {[op |-> "adddel", k |-> k, x0 |-> 5, k2 |-> j] : k \in Names, j \in Names}
+  \cup {[op |-> "add2", k |-> k, x0 |-> 5, k2 |-> j] : k \in Names, j \in Names}
   \cup {[op |-> "gendel", k |-> k, tpl |-> t, x0 |-> 0, k2 |-> j] : k \in Names, t \in Tpls, j \in Names}
   \cup {[op |-> "gen2", k |-> k, tpl |-> t, x0 |-> 0, k2 |-> j] : k \in Names, t \in Tpls, j \in Names}
   \cup {[op |-> "movegen", k |-> k, tpl |-> t, x0 |-> 0] : k \in Names, t \in Tpls}
@@ -318,6 +325,10 @@ C09_Effects ==
       /\ op.op \in {"add", "adddel"} =>
            (Has(tree', "agents", op.k) /\ tree'["agents"][op.k].tpl = "T0"
             /\ tree'["agents"][op.k].x = op.x0 /\ origin'[<<"agents", op.k>>] = New)
+      /\ op.op = "add2" =>
+           \A d \in {op.k, op.k2} :
+              Has(tree', "agents", d) /\ tree'["agents"][d].tpl = "T0"
+              /\ tree'["agents"][d].x = op.x0 /\ origin'[<<"agents", d>>] = New
       /\ op.op \in {"del", "delpath"} => ~Has(tree', "agents", op.k)
       /\ op.op \in {"adddel", "gendel"} => ~Has(tree', "agents", op.k2)
       /\ op.op = "gen2" =>
